@@ -138,7 +138,7 @@ def counters_balance(pre, now_, origin):
 def monotone(pre, now_):
     x = z3.Int(pre.st.uniq("x"))
     return z3.And(
-        forall([x], z3.Or(fstate(pre, x) == fstate(now_, x), z3.And(fstate(pre, x) == PENDING, fstate(now_, x) == CANCELLED)), patterns=[fstate(now_, x)]),
+        forall([x], z3.Or(fstate(pre, x) == fstate(now_, x), z3.And(fstate(pre, x) == PENDING, fstate(now_, x) == CANCELLED, pre.f("Future", "$awaited", x))), patterns=[fstate(now_, x)]),
         forall([x], tf(now_, "ncancel", x) >= tf(pre, "ncancel", x), patterns=[tf(now_, "ncancel", x)]),
     )
 
@@ -254,7 +254,7 @@ class DeliveryBase(ScopeUnit):
         ip.st.assume(forall([x], z3.Implies(children(h, s).has(x), z3.And(x > 0, z3.Select(al, x))), patterns=[children(h, s).has(x)]))
         ip.st.assume(forall([x], z3.Implies(members(h, s).has(x), x > 0), patterns=[members(h, s).has(x)]))
         # E3: a task's waiter is None or an allocated future; counters are natural numbers
-        ip.st.assume(forall([x], z3.And(tf(h, "fut_waiter", x) >= 0, tf(h, "ncancel", x) >= 0), patterns=[tf(h, "fut_waiter", x)]))
+        ip.st.assume(forall([x], z3.And(tf(h, "fut_waiter", x) >= 0, tf(h, "ncancel", x) >= 0, z3.Implies(tf(h, "fut_waiter", x) != 0, h.f("Future", "$awaited", tf(h, "fut_waiter", x)))), patterns=[tf(h, "fut_waiter", x)]))
 
 
 # ---- _deliver_cancellation ---------------------------------------------------------------------------------------
